@@ -147,9 +147,15 @@ func TestVF_C39_Republish(t *testing.T) {
 			}
 			ops = append(ops, op)
 		}
-		republishes := rapid.IntRange(1, 2).Draw(t, "republishes")
+		republishes := rapid.IntRange(1, 3).Draw(t, "republishes")
+		// external edits of the snapshot key between the operator's publishes (etcd restored from a
+		// backup, key removed by an operator mistake, key overwritten with junk)
+		edits := make([]string, republishes)
+		for i := 1; i < republishes; i++ {
+			edits[i] = rapid.SampledFrom([]string{"", "rollback-to-earlier-publish", "rollback-to-before-republish", "delete", "delete", "garbage"}).Draw(t, "externalEdit")
+		}
 
-		podAddr, _, problem := c39PodAddrs(ctx, cluster)
+		pods, _, problem := c39PodAddrs(ctx, cluster)
 		if problem != "" {
 			if strings.HasPrefix(problem, "VF-INCONCLUSIVE") {
 				fmt.Println(problem)
@@ -164,15 +170,23 @@ func TestVF_C39_Republish(t *testing.T) {
 			envFail("clear etcd: %v", err)
 		}
 		var trace []string
+		pub := NewSnapshotPublisher(nil) // ONE publisher for the whole history, as in the operator process
+		var valEarlier, valBefore []byte
 		if !firstPublish {
 			prev := cluster.DeepCopy()
 			prev.Spec.Brokers.Replicas = &prevReplicas
 			objs, _ := c39TopicObjects(cluster, plans, false)
 			c := fake.NewClientBuilder().WithScheme(scheme).WithObjects(append([]client.Object{prev.DeepCopy()}, objs...)...).Build()
-			if err := NewSnapshotPublisher(c).Publish(ctx, prev, endpoints); err != nil {
+			pub.Client = c
+			if err := pub.Publish(ctx, prev, endpoints); err != nil {
 				envFail("earlier publish: %v", err)
 			}
 			trace = append(trace, fmt.Sprintf("publish(replicas=%d,%d topic resources)", prevReplicas, len(objs)))
+			gctx, cancel := context.WithTimeout(ctx, 10*time.Second)
+			if resp, err := raw.Get(gctx, snapKey); err == nil && len(resp.Kvs) > 0 {
+				valEarlier = append([]byte(nil), resp.Kvs[0].Value...)
+			}
+			cancel()
 		}
 		grewBeyond, brokerOnly := false, false
 		for _, op := range ops {
@@ -224,6 +238,7 @@ func TestVF_C39_Republish(t *testing.T) {
 			envFail("read existing snapshot: %v", err)
 		}
 		if len(resp.Kvs) > 0 {
+			valBefore = append([]byte(nil), resp.Kvs[0].Value...)
 			if err := json.Unmarshal(resp.Kvs[0].Value, &existing); err != nil {
 				envFail("existing snapshot does not decode: %v", err)
 			}
@@ -257,8 +272,39 @@ func TestVF_C39_Republish(t *testing.T) {
 		st.Eval()
 		objs, _ := c39TopicObjects(cluster, plans, true)
 		c := fake.NewClientBuilder().WithScheme(scheme).WithObjects(append([]client.Object{cluster.DeepCopy()}, objs...)...).Build()
-		pub := NewSnapshotPublisher(c)
+		pub.Client = c
 		for i := 0; i < republishes; i++ {
+			if edits[i] != "" {
+				ectx, cancel := context.WithTimeout(ctx, 10*time.Second)
+				var eerr error
+				applied := true
+				switch edits[i] {
+				case "rollback-to-earlier-publish":
+					if valEarlier != nil {
+						_, eerr = raw.Put(ectx, snapKey, string(valEarlier))
+					} else {
+						applied = false
+					}
+				case "rollback-to-before-republish":
+					if valBefore != nil {
+						_, eerr = raw.Put(ectx, snapKey, string(valBefore))
+					} else {
+						_, eerr = raw.Delete(ectx, snapKey)
+					}
+				case "delete":
+					_, eerr = raw.Delete(ectx, snapKey)
+				case "garbage":
+					_, eerr = raw.Put(ectx, snapKey, "{not json")
+				}
+				cancel()
+				if eerr != nil {
+					envFail("external edit %s: %v", edits[i], eerr)
+				}
+				if applied {
+					trace = append(trace, "external:"+edits[i])
+					st.Class("external-edit:" + edits[i])
+				}
+			}
 			if err := pub.Publish(ctx, cluster, endpoints); err != nil {
 				envFail("publish: %v", err)
 			}
@@ -266,15 +312,18 @@ func TestVF_C39_Republish(t *testing.T) {
 			gctx, cancel := context.WithTimeout(ctx, 10*time.Second)
 			resp, err := raw.Get(gctx, snapKey)
 			cancel()
-			if err != nil || len(resp.Kvs) == 0 {
-				envFail("read snapshot: %v (%d kvs)", err, len(resp.Kvs))
+			if err != nil {
+				envFail("read snapshot: %v", err)
+			}
+			if len(resp.Kvs) == 0 {
+				t.Fatalf("after %v Publish returned success but /kafscale/metadata/snapshot does not exist\ncluster %s/%s replicas %d", trace, cluster.Namespace, cluster.Name, curReplicas)
 			}
 			var loaded metadata.ClusterMetadata
 			if err := json.Unmarshal(resp.Kvs[0].Value, &loaded); err != nil {
 				t.Fatalf("published snapshot does not decode: %v", err)
 			}
 			info := map[string]any{}
-			if p := c39CheckPublished(loaded, cluster, podAddr, mine, false, info); p != "" {
+			if p := c39CheckPublished(loaded, cluster, pods, mine, false, info); p != "" {
 				t.Fatalf("after %v the published snapshot violates the property: %s\ncluster %s/%s replicas %d (earlier %d)\ntopic plans %+v", trace, p, cluster.Namespace, cluster.Name, curReplicas, prevReplicas, plans)
 			}
 		}
